@@ -255,6 +255,7 @@ int main(int argc, char** argv)
     cx.opt = parse_options(argc, argv);
     g_ctx() = &cx;
     install_crash_handlers();
+    cx.termination_only = cx.opt.prop == "C14" && cx.opt.replay.empty(); // C14 stage: execute everything, report only calls that do not return
     auto targets = load_targets(cx.opt, "move");
 
     if (!cx.opt.replay.empty())
@@ -419,7 +420,7 @@ int main(int argc, char** argv)
                         set_mask(c, m);
                         c.cls = "rc_mask";
                         note_case(cx, c, m != 0 && m != full);
-                        RC_ASSERT(exec_case(cx, c, tg, e));
+                        RC_ASSERT(exec_case(cx, c, tg, e) || cx.termination_only);
                     },
                     md, params);
             }
@@ -494,7 +495,7 @@ int main(int argc, char** argv)
                         set_idx(c, idx);
                         c.cls = "rc_index";
                         note_case(cx, c, true);
-                        RC_ASSERT(exec_case(cx, c, tg, e));
+                        RC_ASSERT(exec_case(cx, c, tg, e) || cx.termination_only);
                     },
                     md, params);
             }
